@@ -3,6 +3,8 @@ open PyPred
 #print axioms C01_optimize_preserves
 #print axioms C01_partial_impl
 #print axioms C01_assignments
+#print axioms C01_vars_subset
+#print axioms C01_prop_closed
 #print axioms C01_witness_xorNotAnd
 #print axioms C01_witness_xorOr
 #print axioms C01_witness_xorAndUnguarded
